@@ -711,6 +711,9 @@ impl W3Exec {
         if n >= 128 {
             self.stats.probe("large_batch_step");
         }
+        if self.steps == 1024 {
+            self.stats.probe("run_of_1024_plus_steps");
+        }
         if n > 4096 {
             self.stats.probe("large_batch_step_over_4096");
         }
